@@ -138,6 +138,18 @@ func str(v any) string {
 	return ""
 }
 
+// clamp32 saturates an observed integer to the int32 range of the trace format (observations
+// that large are outside every demand of the specification).
+func clamp32(n int) int {
+	if n > math.MaxInt32 {
+		return math.MaxInt32
+	}
+	if n < math.MinInt32 {
+		return math.MinInt32
+	}
+	return n
+}
+
 func b2i(b bool) int {
 	if b {
 		return 1
